@@ -146,7 +146,7 @@ func coarseAlphabet(p int) map[string][]classOpt {
 	vs := func(v string) classOpt {
 		return classOpt{fmt.Sprintf("%q", v), func(a *refmodel.Claims) { a.VSI = sp(v) }}
 	}
-	m["vsi"] = []classOpt{{"absent", func(a *refmodel.Claims) { a.VSI = nil }}, vs("https://psa-verifier.org"), vs(""), vs("x")}
+	m["vsi"] = []classOpt{{"absent", func(a *refmodel.Claims) { a.VSI = nil }}, vs("https://psa-verifier.org"), vs(""), vs("x"), vs("https://v.example/psa?tenant=a&api=<2>")}
 	return m
 }
 
